@@ -71,7 +71,7 @@ def run (ops : Ops Pkg) (rx : Rx Pkg) : Rx Pkg × List (Ev Pkg) × Bool :=
 theorem run_nil (ops : Ops Pkg) (rx : Rx Pkg) (hb : rx.buf = []) :
     run ops rx =
       if rx.eom then
-        ({ rx with buf := [], eom := false },
+        ({ rx with buf := [], eom := false, last := none },
           (match rx.last with
            | some l => if ops.isDoneFinal l then [] else [.deliver ops.doneFinal]
            | none => [.deliver ops.doneFinal]), true)
@@ -275,7 +275,7 @@ afterwards the queue is empty and the end-of-message marker cleared. -/
 theorem run_whole (ops : Ops Pkg) (last : Option Pkg) (T : Bytes) (pkgs : List Pkg)
     (hW : WholeP ops last T pkgs) : ∀ (rx : Rx Pkg),
     run ops (withBuf rx last T true) =
-      (withBuf rx (pkgs.foldl (lastAfter ops) last) [] false,
+      (withBuf rx none [] false,
         pkgs.flatMap (acceptEv ops rx.nEed rx.nEnv) ++ synthDone ops (pkgs.foldl (lastAfter ops) last),
         true) := by
   induction hW with
